@@ -1225,6 +1225,17 @@ def use_path_heads_are_guarded(ctx, rid):
                     for sw, tt, ff in bool_branches(f, st[1][0]):
                         if tt is not None and edge_dominates(f, (sw, tt), c.bb):
                             guarded = True
+            if not guarded:
+                # the test may have been folded into a boolean (`let mergeable = !a.path.is_empty() && ..; if !mergeable { return }`):
+                # decide per path — every path that reaches the index has seen an is_empty() of a use-tree path answer false
+                try:
+                    from absint import explore as _explore, TooManyPaths as _TMP
+                    paths = _explore(f, is_effect=lambda cc, _bb=c.bb: cc.bb == _bb, pure=lambda cc: cc.bb != c.bb, max_paths=4000)
+                    reach = [pa for pa in paths if any(e.kind == "call" for e in pa.effects)]
+                    if reach and all(any("is_empty(" in k and ".path" in k and v is False for k, v in pa.decisions) for pa in reach):
+                        guarded = True
+                except Exception:
+                    pass
             r.instance(rid, "%s reads path[%d]" % (short(f.id).split("::{closure")[0], c.args[1][2]), "ok" if guarded else "violation", c.loc())
             if not guarded:
                 r.violation(rid, "%s indexes a use-tree path without knowing it is non-empty" % short(f.id).split("::{closure")[0],
